@@ -3,24 +3,24 @@ import json, sys
 sys.path.insert(0, "/verif")
 
 CHECKS = {
- "C01": ("translation_validation", "symbolic execution (symx+z3) of interpreter vs generated module on a generated grammar family, all inputs up to a length bound",
-         "For each of the ~2 600 (quick) grammars of family F1 (every expression kind x nesting context x trivia configuration) and every start rule, every input of length <= 4 (quick) / 5 (thorough) over the whole Unicode code space and listed start positions is decided: Parser.parse and exec(Parser.generate()).parse return the same tree or the same furthest-failure position, with and without the optimizer; generate() is deterministic and its output compiles. Bounded, not a proof: longer inputs and grammars outside the family are outside the claim.", "6 C01"),
- "C02": ("translation_validation", "symbolic execution (symx+z3): optimizer=None vs default pipeline, each single pass, seeded pass sequences; interpreter and generated",
-         "Same family and bounds as C01; the unoptimized parser is compared per joint path with the default pipeline and each exported pass alone (thorough: seeded subsets / permutations / repetitions), interpreted and generated. The regex model exposes OptimizedChoice's alternation order and flags to the solver.", "6 C02"),
- "C03": ("model_checking", "bounded symbolic execution of the interpreter against an independent reference PEG semantics (refpeg)",
-         "Trivia-free, stack-free slice of F1: interpreter outcome and tree equal refpeg's on every joint path for all inputs up to the bound. refpeg is validated against 122 pest-derived expected trees (golden file under /verif).", "6 C03"),
+ "C01": ("translation_validation", "symbolic execution (symx+z3) of interpreter vs generated module on a generated grammar family (all inputs up to a length bound) and on the bundled grammars with symbolic windows",
+         "Family F1 = expression kinds (87) x nesting contexts (25) x trivia configurations (12), plus the nested stack family: quick decides a pairwise covering (~6 600 grammars), thorough the full product (~25 000) plus 400 seeded compositions. For every start rule, every input of length <= 4 (quick) / 5 (thorough) over the whole Unicode code space and listed start positions: Parser.parse and exec(Parser.generate()).parse return the same tree or the same furthest-failure position, with and without the optimizer; generate() is deterministic and its output compiles. Also the repository's 15 grammars on its own test inputs with 1-2 symbolic characters replaced / inserted. Bounded, not a proof: longer inputs and grammars outside the family are outside the claim.", "6 C01"),
+ "C02": ("translation_validation", "symbolic execution (symx+z3): optimizer=None vs default pipeline, each single pass, pass permutations / repetitions / seeded sequences; interpreter and generated",
+         "Same family, bundled grammars and bounds as C01; the unoptimized parser is compared per joint path with the default pipeline, each exported pass alone, the reversed pipeline, the pipeline twice and other orders (thorough: seeded sequences of length 2-6), interpreted and generated. The regex model exposes OptimizedChoice's alternation order, flags and case folding to the solver (case-insensitive literals on every code point).", "6 C02"),
+ "C03": ("model_checking", "bounded symbolic execution of all four modes against an independent reference PEG semantics (refpeg)",
+         "Trivia-free, stack-free, modifier-free slice of F1 and of the bundled grammars: outcome and tree equal refpeg's on every joint path for all inputs up to the bound. refpeg is validated at start-up against 122 pest-derived expected trees (golden file under /verif).", "6 C03"),
  "C04": ("model_checking", "bounded symbolic execution of all four modes against refpeg on grammars with WHITESPACE/COMMENT and rule modifiers",
-         "Slice of F1 with trivia and/or _ @ $ ! modifiers (nesting up to 3): all four modes equal refpeg, which places trivia and hides pairs exactly as pest's generator does. All inputs up to the bound, so trivia is tried at every place.", "6 C04"),
- "C05": ("model_checking", "bounded symbolic execution of all four modes against refpeg on grammars with the seven stack operations in backtracking contexts",
-         "Stack slice of F1 (inputs up to length 5/6 so pushed text can recur): outcome and tree equal refpeg, whose stack is purely functional (every failing construct leaves no trace). The history reading of the property is discharged by C09's inductive step.", "6 C05"),
+         "Slice of F1 (and bundled grammars) with trivia and/or _ @ $ ! modifiers (nesting up to 3; silent / non-silent, multi-element and block-comment trivia): all four modes equal refpeg, which places trivia and hides pairs exactly as pest's generator does. All inputs up to the bound, so trivia is tried at every place.", "6 C04"),
+ "C05": ("model_checking", "bounded symbolic execution of all four modes against refpeg on grammars with the stack operations in backtracking contexts",
+         "Stack slice of F1 + the nested stack family + lists.pest / surround.pest (inputs up to length 5/6 so pushed text can recur; empty pushes; every PEEK slice shape): outcome and tree equal refpeg, whose stack is purely functional (every failing construct leaves no trace). The history reading of the property is discharged by C09's inductive step.", "6 C05"),
  "C06": ("model_checking", "symbolic execution; tree invariants asserted through the public Pair/Pairs API on every accepting path, content-level invariants on every path's witness",
-         "All of F1 x four modes: span bounds, ordering/nesting of children, names, tags, tokens() balance, flatten() pre-order, single root are asserted per accepting path (positions are concrete on a path); text/str/span/dump/dumps agreement is asserted on the path's concrete witness (json is a C boundary).", "6 C06"),
+         "All of F1 + stack family + bundled grammars x four modes: span bounds, ordering/nesting of children, names, tags, tokens() balance, flatten() pre-order, single root are asserted per accepting path (positions are concrete on a path); text/str/span/dump/dumps agreement is asserted on the path's concrete witness (json is a C boundary).", "6 C06"),
  "C07": ("model_checking", "symbolic execution of every start rule in four modes; any exception other than PestParsingError or a differing second call is a violation",
-         "All of F1, every start rule, all inputs up to the bound: each path ends in Pairs or PestParsingError and a repeated call gives an equal result. Termination is bounded by a per-unit budget (an exhausted budget is reported inconclusive, never success).", "6 C07"),
- "C13": ("model_checking", "symbolic execution: failure position/name validity per rejecting path; error_context() decided for all (text, offset) up to a bound; rendering on every path's witness",
-         "All of F1 x four modes: furthest_pos in range or -1, listed names are rules/built-ins (per rejecting path, symbolic input). error_context(text,p) equals the line/column reference for every text of length <= 4/6 and every offset (symbolic text, '\\n' line breaks) and never raises without that assumption. str(error) is evaluated on each path's concrete witness.", "6 C13"),
+         "All of F1 + stack family + bundled grammars, every start rule, all inputs up to the bound: each path ends in Pairs or PestParsingError and a repeated call gives an equal result. Termination is bounded by a per-unit budget and a watchdog (an exhausted budget is reported inconclusive, never success).", "6 C07"),
+ "C13": ("model_checking", "symbolic execution: failure position/name validity per rejecting path; error_context() and join_with_limit() decided for all arguments up to a bound; rendering on every path's witness; CrossHair as second engine (thorough)",
+         "All of F1 + bundled grammars x four modes: furthest_pos in range or -1, listed names are rules/built-ins (per rejecting path, symbolic input). error_context(text,p) equals the line/column reference for every text of length <= 4/6 and every offset (symbolic text; '\\n' breaks, and all str.splitlines boundaries against a splitlines reference); join_with_limit with a symbolic limit. str(error) is evaluated on each path's concrete witness.", "6 C13"),
  "C16": ("model_checking", "symbolic execution: parse(text, start_pos=k) vs parse(text[k:]) shifted, same symbolic characters, all k",
-         "SOI-free part of F1 x four modes x all 1 <= k <= n: because the prefix characters are symbolic and unconstrained, equality on all paths is exactly 'characters before start_pos are never consulted'.", "6 C16"),
+         "SOI-free part of F1 and of the bundled grammars x four modes x all 1 <= k <= n: because the prefix characters are symbolic and unconstrained, equality on all paths is exactly 'characters before start_pos are never consulted'.", "6 C16"),
 }
 PENDING = {}
 
